@@ -103,6 +103,7 @@ def plan(tier, seed):
                 if depth < 2 and second is not None:
                     continue
                 ch.append({"key": f"{name}/{first}/{second}", "kind": "hist", "config": name, "first": first, "second": second, "cost": len(EVENTS) ** max(0, depth - 2)})
+    ch.append({"key": "beacon-ids", "kind": "ids", "cost": 200})
     if tier == "thorough":
         menu = config_menu()
         for i, (n1, k1) in enumerate(menu):
@@ -131,11 +132,12 @@ def ref_prog(steps, b0):
 class Session:
     """One execution: real client <-> reference server, wire log, ground-truth packet log."""
 
-    def __init__(self, cfg_kw, seed, uri_choice=0):
+    def __init__(self, cfg_kw, seed, uri_choice=0, beacon_id=0x1234):
         from dissect.cobaltstrike import beacon
 
         self.seed = seed
         self.uri_choice = uri_choice
+        self.beacon_id = beacon_id
         self.kw = dict(cfg_kw)
         self.priv = K.key(1024, seed % 2)
         self.block = RC.http_block(key_which=seed % 2, **cfg_kw)
@@ -253,7 +255,7 @@ class Session:
         self.real_request = lc.httpx.request
         lc.httpx.request = self.fake_request
         self.client = lc.HttpBeaconClient()
-        self.client.run(self.cfg, dry_run=True, beacon_id=0x1234, pid=4321, user="user", computer="WIN-PC", process="p.exe", internal_ip="10.0.0.7", arch="x64")
+        self.client.run(self.cfg, dry_run=True, beacon_id=self.beacon_id, pid=4321, user="user", computer="WIN-PC", process="p.exe", internal_ip="10.0.0.7", arch="x64")
         # the client's random.choice of its check-in URI is an environment answer: enumerate it
         uris = self.client.bconfig.uris
         self.client.get_uri = uris[self.uri_choice % len(uris)]
@@ -378,9 +380,9 @@ def _pj(pk):
     return [[x.hex()[:48] if isinstance(x, bytes) else x for x in p] for p in pk]
 
 
-def run_history(cfg_kw, hist, seed, uri_choice=0):
+def run_history(cfg_kw, hist, seed, uri_choice=0, beacon_id=0x1234):
     """-> (bad or None, session)"""
-    s = Session(cfg_kw, seed, uri_choice)
+    s = Session(cfg_kw, seed, uri_choice, beacon_id)
     try:
         s.start()
         for ev in hist:
@@ -419,6 +421,22 @@ def chunk_hist(chunk, acc):
     acc.sample({"config": chunk["config"], "history": list(prefix) + ["P2", "Uuri"], "key_variants": list(VARIANTS)})
 
 
+def chunk_ids(chunk, acc):
+    """The session keys come from the beacon id: ids whose 16 seed bytes start with 00, odd ids, large ids."""
+    from vmc.checks.c19 import leading_zero_ids
+
+    ids = leading_zero_ids(4) + [0, 1, 2, 1235, 0x7FFFFFFE, 0x7FFFFFFF]
+    for bid in ids:
+        for hist in (("C1", "P1", "C0"), ("C2", "P2", "C1", "P1e")):
+            acc.states += 1
+            acc.transitions += len(hist)
+            bad, s = run_history({}, hist, acc.seed, 0, bid)
+            acc.case((bid, hist), outcome=bad[0] if bad else len(s.wire))
+            if bad:
+                acc.fail(bad[0] + "/beacon-id", {"kind": "ids", "beacon_id": bid, "history": list(hist), "seed": acc.seed}, bad[1], bad[2])
+    acc.sample({"beacon_ids": ids, "note": "first ids: session seed begins with a zero byte"})
+
+
 def chunk_pair(chunk, acc):
     menu = dict(config_menu())
     kw = dict(menu[chunk["a"]])
@@ -439,6 +457,9 @@ def run_chunk(chunk, acc):
 
 def replay(case):
     menu = dict(config_menu())
+    if case["kind"] == "ids":
+        bad, s = run_history({}, tuple(case["history"]), case["seed"], 0, case["beacon_id"])
+        return {"ok": bad is None, "expected": bad[1] if bad else None, "observed": {"signature": bad[0], "detail": bad[2]} if bad else None}
     if case["kind"] == "history":
         kw = menu[case["config"]]
     else:
